@@ -59,6 +59,46 @@ pub const PRESENTATION_FLAGS: &[&[&str]] = &[
 /// exceeds what its Rust type carries (aligned typedef, member attribute, over-aligned
 /// struct, 16-aligned scalar), placed after a gap of 1..15 bytes, in structs and unions.
 /// One program per (over-aligned kind, alignment); two option sets each.
+/// Systematic family: typedefs with the names bindgen maps by *name* (`size_t`, `ssize_t`,
+/// `intptr_t`, `uintptr_t`, `ptrdiff_t`, the fixed-width `intN_t` family, `wchar_t`), used as
+/// members, array elements and through a further typedef, with and without the size_t mapping.
+fn well_known_typedef_grid() -> Vec<Case> {
+    let names: &[(&str, Prim)] = &[
+        ("size_t", Prim::ULong),
+        ("ssize_t", Prim::Long),
+        ("intptr_t", Prim::Long),
+        ("uintptr_t", Prim::ULong),
+        ("ptrdiff_t", Prim::Long),
+        ("int8_t", Prim::SChar),
+        ("uint8_t", Prim::UChar),
+        ("int16_t", Prim::Short),
+        ("uint16_t", Prim::UShort),
+        ("int32_t", Prim::Int),
+        ("uint32_t", Prim::UInt),
+        ("int64_t", Prim::Long),
+        ("uint64_t", Prim::ULong),
+        ("off_t", Prim::Long),
+        ("time_t", Prim::Long),
+    ];
+    let mut decls: Vec<Decl> = names.iter().map(|(n, p)| Decl::Typedef { name: n.to_string(), ty: Ty::Prim(*p), aligned: None }).collect();
+    let n = names.len();
+    // a second-level typedef of each
+    for (k, (nm, _)) in names.iter().enumerate() {
+        decls.push(Decl::Typedef { name: format!("my_{nm}"), ty: Ty::Named(k), aligned: None });
+    }
+    let mut fields = vec![Field { name: "lead".into(), ty: FieldTy::Ty(Ty::Prim(Prim::Char)), bits: None, align: None }];
+    for (k, (nm, _)) in names.iter().enumerate() {
+        fields.push(Field { name: format!("m_{nm}"), ty: FieldTy::Ty(Ty::Named(k)), bits: None, align: None });
+        fields.push(Field { name: format!("a_{nm}"), ty: FieldTy::Ty(Ty::Array { of: Box::new(Ty::Named(n + k)), dims: vec![ArrLen::Fixed(3)] }), bits: None, align: None });
+    }
+    decls.push(Decl::Comp(Comp { is_union: false, tag: Some("WellKnown".into()), fields, packed: false, aligned: None, pragma_pack: None, typedef_name: None }));
+    let prog = Program { decls };
+    vec![
+        Case { prog: prog.clone(), opt_sets: vec![vec![], vec!["--no-size_t-is-usize".into()]], keep_known: false },
+        Case { prog, opt_sets: vec![vec!["--ctypes-prefix".into(), "::core::ffi".into()], vec!["--use-core".into()]], keep_known: false },
+    ]
+}
+
 fn overaligned_member_grid() -> Vec<Case> {
     let mut cases = vec![];
     let elems = [Prim::Char, Prim::Int, Prim::Double];
@@ -173,6 +213,10 @@ fn comp_class(p: &Program, c: &Comp) -> String {
         for (k, f) in c.fields.iter().enumerate() {
             if let Some(b) = f.bits {
                 out.insert("bitfield");
+                if b == 0 && matches!(c.fields.get(k + 1), Some(n) if n.name.is_empty() && matches!(n.ty, FieldTy::Inline(_))) {
+                    // (only in replays of that known finding: excluded by construction otherwise)
+                    out.insert("zero-width-before-anonymous-member");
+                }
                 if b == 0 {
                     // a zero-width separator that opens a run (first field or after a plain member)
                     let prev_is_bf = k > 0 && c.fields[k - 1].bits.is_some();
@@ -422,7 +466,9 @@ impl Property for C02 {
         tier.pick(250, 6000)
     }
     fn fixed_cases(&self, _tier: Tier) -> Vec<Case> {
-        overaligned_member_grid()
+        let mut v = overaligned_member_grid();
+        v.extend(well_known_typedef_grid());
+        v
     }
     fn evaluate(&self, case: &Case, env: &Env) -> Outcome {
         let mut out = Outcome::new();
@@ -500,7 +546,9 @@ impl Property for C02 {
                 let explained = side.walk.skipped.iter().any(|(pat, _)| {
                     let (pi, pp) = pat.split_once(':').unwrap();
                     pi == idx.to_string() && path.starts_with(pp.trim_end_matches('*'))
-                }) || side.walk.problems.iter().any(|(_, m)| m.contains(&format!("decl {idx}:")));
+                }) || side.walk.problems.iter().any(|(_, m)| m.contains(&format!("decl {idx}:")))
+                    // a typedef bindgen maps to a builtin type by name has no item of its own
+                    || matches!(prog.decls.get(idx), Some(Decl::Typedef { name, .. }) if ["size_t", "ssize_t", "intptr_t", "uintptr_t", "ptrdiff_t", "int8_t", "uint8_t", "int16_t", "uint16_t", "int32_t", "uint32_t", "int64_t", "uint64_t", "wchar_t"].contains(&name.as_str()));
                 if !explained && !k.starts_with("signed:") {
                     out.fail("fact-not-observable-in-rust", format!("flags {flags:?}: {k}"));
                 }
